@@ -30,6 +30,8 @@ typedef struct {
   size_t srcslack;
   int tracemax;
   int hashmode;  // 0 mix, 1 update only, 2 update_xx only
+  int calllog;   // (added for C03) max per-call records printed as calllog= (0 = none)
+  bool nullempty;  // (added for C03) zero-length buffers are {NULL, 0}
 } options;
 
 static void options_default(options* o) {
@@ -153,6 +155,8 @@ static bool parse_option(options* o, const char* kv) {
   }
   if (KEY("srcslack")) return parse_u64(v, &u) && u <= (1u << 20) && ((o->srcslack = (size_t)u), true);
   if (KEY("trace")) return parse_u64(v, &u) && u <= 4096 && ((o->tracemax = (int)u), true);
+  if (KEY("nullempty")) return parse_u64(v, &u) && u <= 1 && ((o->nullempty = u), true);
+  if (KEY("calllog")) return parse_u64(v, &u) && u <= 4096 && ((o->calllog = (int)u), true);
   if (KEY("mode")) {
     if (!strcmp(v, "mix")) o->hashmode = 0;
     else if (!strcmp(v, "update")) o->hashmode = 1;
@@ -179,6 +183,11 @@ typedef struct {
   uint64_t frames;
   uint64_t fdigest;
   bool is_image;
+  // (added for C03) per-call records: the first calllog/2 calls and the last calllog - calllog/2 calls
+  bytes clog_head;
+  bytes clog_tail[64];
+  int clog_nhead;
+  uint64_t clog_ntail;
 } result;
 
 static void result_init(result* r) {
@@ -189,6 +198,65 @@ static void result_init(result* r) {
 static void result_free(result* r) {
   bytes_free(&r->out);
   bytes_free(&r->trace);
+  bytes_free(&r->clog_head);
+  for (int i = 0; i < 64; i++) bytes_free(&r->clog_tail[i]);
+}
+
+// calllog_add (added for C03): one record per call,
+//   <status as hex of repr, or NULL>/<class by the library's own wuffs_base__status__is_* predicates: o n s e ?>/
+//   <src closed>/<src ri before>/<src wi>/<src ri after>/<dst wi before>/<dst len>/<dst wi after>/
+//   <flag bits: 1 internal_error_status, 2 short_read_on_closed_full_input, 4 short_write_with_empty_ample_dst,
+//               8 short_write_zero_progress, 16 index order broken>
+// dst fields are 0 for image decoders. Records are separated by ';'.
+static void calllog_add(result* r, const options* o, wuffs_base__status st, const wuffs_base__io_buffer* sb,
+                        const wuffs_base__io_buffer* sa, uint64_t dwi0, uint64_t dlen, uint64_t dwi1, unsigned flagbits) {
+  if (o->calllog <= 0) return;
+  int nhead = o->calllog / 2, ntail = o->calllog - nhead;
+  if (ntail > 64) ntail = 64;
+  bytes* b;
+  if (r->clog_nhead < nhead) {
+    b = &r->clog_head;
+    if (r->clog_nhead++) bytes_adds(b, ";");
+  } else {
+    b = &r->clog_tail[r->clog_ntail++ % (uint64_t)ntail];
+    b->n = 0;
+  }
+  if (st.repr) add_hex(b, (const uint8_t*)st.repr, strlen(st.repr));
+  else bytes_adds(b, "NULL");
+  int k = (int)wuffs_base__status__is_ok(&st) + 2 * (int)wuffs_base__status__is_note(&st) +
+          4 * (int)wuffs_base__status__is_suspension(&st) + 8 * (int)wuffs_base__status__is_error(&st);
+  char cls = k == 1 ? 'o' : k == 2 ? 'n' : k == 4 ? 's' : k == 8 ? 'e' : '?';
+  bytes_addf(b, "/%c/%d/%zu/%zu/%zu/%" PRIu64 "/%" PRIu64 "/%" PRIu64 "/%u", cls, sb->meta.closed ? 1 : 0, sb->meta.ri,
+             sa->meta.wi, sa->meta.ri, dwi0, dlen, dwi1, flagbits);
+}
+static unsigned calllog_flagbits(const char* st, const wuffs_base__io_buffer* src_after, bool zero_progress, bool ample,
+                                 bool sane) {
+  unsigned f = 0;
+  if (st && st[0] == '#' && strstr(st, "internal error")) f |= 1;
+  if (st && !strcmp(st, "$base: short read") && src_after->meta.closed) f |= 2;
+  if (st && !strcmp(st, "$base: short write") && zero_progress && ample) f |= 4;
+  if (st && !strcmp(st, "$base: short write") && zero_progress) f |= 8;
+  if (!sane) f |= 16;
+  return f;
+}
+static void calllog_print(bytes* line, const options* o, result* r) {
+  if (o->calllog <= 0) return;
+  bytes_addf(line, " calllog=%" PRIu64 ":", r->calls);
+  bool any = false;
+  if (r->clog_head.n) {
+    bytes_add(line, r->clog_head.p, r->clog_head.n);
+    any = true;
+  }
+  int nhead = o->calllog / 2, ntail = o->calllog - nhead;
+  if (ntail > 64) ntail = 64;
+  uint64_t have = r->clog_ntail < (uint64_t)ntail ? r->clog_ntail : (uint64_t)ntail;
+  for (uint64_t i = r->clog_ntail - have; i < r->clog_ntail; i++) {
+    bytes* b = &r->clog_tail[i % (uint64_t)ntail];
+    if (any) bytes_adds(line, ";");
+    bytes_add(line, b->p, b->n);
+    any = true;
+  }
+  if (!any) bytes_adds(line, "-");
 }
 static void trace_add(result* r, const options* o, const char* st, const wuffs_base__io_buffer* src, uint64_t dst_wi) {
   if (r->traced >= o->tracemax) return;
@@ -219,16 +287,18 @@ typedef struct {
 static void work_resize(workbuf* w, size_t n, pattern* pat) {
   uint8_t* nb;
   if (pat && pat->mode) {
-    nb = xalloc(n);
+    nb = xalloc_maybe_null(n);
     pattern_fill(pat, nb, n);
   } else if (WV_MSAN) {
-    nb = xalloc(n);
+    nb = xalloc_maybe_null(n);
+  } else if (n == 0 && g_null_empty) {
+    nb = NULL;
   } else {
     nb = (uint8_t*)calloc(n ? n : 1, 1);
     if (!nb) die("out of memory");
   }
   if (w->p) {
-    memcpy(nb, w->p, w->n < n ? w->n : n);
+    if (nb && (w->n < n ? w->n : n)) memcpy(nb, w->p, w->n < n ? w->n : n);
     free(w->p);
   }
   w->p = nb;
@@ -310,6 +380,12 @@ static void run_transformer(object* o, options* opt, const uint8_t* in, size_t i
                 dst.buf.meta.wi >= db.meta.wi && dst.buf.data.ptr == db.data.ptr;
     trace_add(r, opt, st.repr, &src.buf, dst.buf.meta.wi);
     note_status(r, st.repr, &src.buf);
+    if (opt->calllog > 0) {
+      bool zp = sane && dst.buf.meta.wi == db.meta.wi && src.buf.meta.ri == sb.meta.ri;
+      bool amp = (db.data.len - db.meta.wi) >= opt->ample;
+      calllog_add(r, opt, st, &sb, &src.buf, db.meta.wi, db.data.len, dst.buf.meta.wi,
+                  calllog_flagbits(st.repr, &src.buf, zp, amp, sane));
+    }
     if (!sane) {
       r->status = "driver:buffer_contract_broken";
       break;
@@ -422,7 +498,7 @@ static void run_tokens(object* o, options* opt, const uint8_t* in, size_t in_len
     }
     force_cap = 0;
     if (cap > (1u << 22)) cap = 1u << 22;
-    wuffs_base__token* tk = (wuffs_base__token*)xalloc((size_t)cap * sizeof(wuffs_base__token));
+    wuffs_base__token* tk = (wuffs_base__token*)xalloc_maybe_null((size_t)cap * sizeof(wuffs_base__token));
     if (opt->prefill.mode) pattern_fill(&opt->prefill, (uint8_t*)tk, (size_t)cap * sizeof(wuffs_base__token));
     wuffs_base__token_buffer tb;
     memset(&tb, 0, sizeof tb);
@@ -438,6 +514,10 @@ static void run_tokens(object* o, options* opt, const uint8_t* in, size_t in_len
                 src.buf.data.ptr == sb.data.ptr && tb.meta.wi <= cap && tb.data.ptr == tk;
     trace_add(r, opt, st.repr, &src.buf, sane ? tb.meta.wi : 0);
     note_status(r, st.repr, &src.buf);
+    if (opt->calllog > 0) {
+      bool zp = sane && tb.meta.wi == 0 && src.buf.meta.ri == sb.meta.ri;
+      calllog_add(r, opt, st, &sb, &src.buf, 0, cap, tb.meta.wi, calllog_flagbits(st.repr, &src.buf, zp, cap >= opt->ample, sane));
+    }
     if (!sane) {
       free(tk);
       r->status = "driver:buffer_contract_broken";
@@ -533,6 +613,8 @@ static void run_image(object* o, options* opt, const uint8_t* in, size_t in_len,
       }
     }
     note_status(r, st.repr, &src.buf);
+    if (opt->calllog > 0)
+      calllog_add(r, opt, st, &sb, &src.buf, 0, 0, 0, calllog_flagbits(st.repr, &src.buf, false, false, sane));
     if (!sane) {
       r->status = "driver:buffer_contract_broken";
       break;
@@ -672,6 +754,7 @@ static void print_result(bytes* line, const options* opt, result* r) {
   else bytes_adds(line, " allocs=na");
   if (r->is_image)
     bytes_addf(line, " w=%" PRIu32 " h=%" PRIu32 " frames=%" PRIu64 " fdigest=%016" PRIx64, r->w, r->h, r->frames, r->fdigest);
+  calllog_print(line, opt, (result*)r);
 }
 
 // cmd_run: fields = [codec, opts..., hex]
@@ -705,6 +788,7 @@ static void cmd_run(bytes* line, char** f, int nf) {
   result r;
   result_init(&r);
   object o;
+  g_null_empty = opt.nullempty;
   wuffs_base__status s = prepare_object(&o, c, &opt, in, in_len, &r.flags);
   if (s.repr) {
     bytes_adds(line, "ok status=");
@@ -716,6 +800,7 @@ static void cmd_run(bytes* line, char** f, int nf) {
   } else {
     bytes_adds(line, "bad-op use-hash-for-hashers");
   }
+  g_null_empty = false;
   object_free(&o);
   result_free(&r);
   free(in);
@@ -755,6 +840,7 @@ static void cmd_hash(bytes* line, char** f, int nf) {
   memset(&flags, 0, sizeof flags);
   uint64_t allocs0 = g_lib_allocs;
   object o;
+  g_null_empty = opt.nullempty;
   wuffs_base__status s = prepare_object(&o, c, &opt, in, in_len, &flags);
   if (s.repr) {
     bytes_adds(line, "ok status=");
@@ -771,8 +857,8 @@ static void cmd_hash(bytes* line, char** f, int nf) {
       uint64_t n = sizelist_next(&splits, UINT64_MAX);
       if (n > in_len - pos) n = in_len - pos;
       if (n == 0 && splits.n && splits.next == splits.n - 1 && pos < in_len) n = in_len - pos;
-      uint8_t* chunk = xalloc((size_t)n);  // exact-size copy: over-reads are heap overflows
-      memcpy(chunk, in + pos, (size_t)n);
+      uint8_t* chunk = xalloc_maybe_null((size_t)n);  // exact-size copy: over-reads are heap overflows
+      if (n) memcpy(chunk, in + pos, (size_t)n);
       wuffs_base__slice_u8 sl = wuffs_base__make_slice_u8(chunk, (size_t)n);
       bool use_value = opt.hashmode == 2 || (opt.hashmode == 0 && (calls & 1));
       if (!use_value) {
@@ -794,7 +880,7 @@ static void cmd_hash(bytes* line, char** f, int nf) {
         for (int k = 0; k < 32; k++) last[k] = (uint8_t)(v.elements_u64[3 - k / 8] >> (8 * (7 - k % 8)));
         have_last = true;
       }
-      if (memcmp(chunk, in + pos, (size_t)n) != 0) names_add(&flags, "src_bytes_changed", (long)calls);
+      if (n && memcmp(chunk, in + pos, (size_t)n) != 0) names_add(&flags, "src_bytes_changed", (long)calls);
       free(chunk);
       calls++;
       pos += (size_t)n;
@@ -821,6 +907,7 @@ static void cmd_hash(bytes* line, char** f, int nf) {
     if (WV_ALLOC_COUNTED) bytes_addf(line, " allocs=%" PRIu64, g_lib_allocs - allocs0);
     else bytes_adds(line, " allocs=na");
   }
+  g_null_empty = false;
   object_free(&o);
   free(in);
   options_free(&opt);
